@@ -290,34 +290,45 @@ static inline u64 canon_d(double a){ return a != a ? 0x7ff8000000000000ull : f64
 #define X_relu(T)       A0(relu, T, 1, x > 0 ? x : 0)
 #define X_relu6(T)      A0(relu6, T, 1, x < 0 ? 0 : x > 6 ? 6 : x)
 #define X_hardtanh(T)   A2(hardtanh, T, NOTNAN(p) && NOTNAN(q) && p <= q, x < p ? p : x > q ? q : x)
-#define X_leaky_relu(T) A1(leaky_relu, T, 1, x >= 0 ? x : p * x)
-#define X_prelu(T)      A1(prelu, T, 1, x >= 0 ? x : p * x)
+/* + - * / of the formulas below go through k_ref_f* (bare C++ operators compiled by the same pipeline): exact IEEE by default, the shared
+ * uninterpreted symbols under -DLL_UF_FLOAT (see the LEAF_FLT section). In the uninterpreted mode the formulas are written in the operation
+ * structure clang -O1 emits, which differs from the source text only by exact IEEE identities: x - c == x + (-c), x * 1 == x, x / 1 == x. */
+#define ADD(T, a, b) k_ref_fadd_##T((T)(a), (T)(b))
+#define SUB(T, a, b) k_ref_fsub_##T((T)(a), (T)(b))
+#define MUL(T, a, b) k_ref_fmul_##T((T)(a), (T)(b))
+#define DIV(T, a, b) k_ref_fdiv_##T((T)(a), (T)(b))
+/* x >= 0 ? x : p*x, in the form clang emits: (x >= 0 ? 1 : p) * x   (1 * x == x exactly) */
+#define X_leaky_relu(T) A1(leaky_relu, T, 1, MUL(T, (x >= 0 ? (T)1 : p), x))
+#define X_prelu(T)      A1(prelu, T, 1, MUL(T, (x >= 0 ? (T)1 : p), x))
 #define X_hardshrink(T) A1(hardshrink, T, p >= 0, (x >= -p && x <= p) ? 0 : x)
 #define X_softshrink(T) A1(softshrink, T, p >= 0, x > p ? x - p : x < -p ? x + p : 0)
-#define X_hardswish(T)  A0(hardswish, T, 1, x < -3 ? 0 : x >= 3 ? x : x * (x + 3) / 6)
-#define X_softsign(T)   A0(softsign, T, 1, x / (1 + (x > 0 ? x : -x)))
+#define X_hardswish(T)  A0(hardswish, T, 1, x < -3 ? 0 : x >= 3 ? x : DIV(T, MUL(T, ADD(T, x, 3), x), 6))
+#define X_softsign(T)   A0(softsign, T, 1, DIV(T, x, ADD(T, 1, (x > 0 ? x : -x))))
 void h_la_relu(void){ u64 xb = in_bits(), pb = 0, qb = 0; X_relu(f32) X_relu(f64) X_relu6(f32) X_relu6(f64)
   { i32 x = (i32)xb; u32 out = 0; int r = k_relu_i32((u32)x, &out); ASSERT(r == 1 && (i32)out == (x > 0 ? x : 0), "relu(i32) == x > 0 ? x : 0"); OBS(out);
     r = k_relu6_i32((u32)x, &out); ASSERT(r == 1 && (i32)out == (x < 0 ? 0 : x > 6 ? 6 : x), "relu6(i32) == min(max(x,0),6)"); OBS(out); }
   REACHED(); }
 void h_la_clamp(void){ u64 xb = in_bits(), pb = in_bits(), qb = in_bits(); X_hardtanh(f32) X_hardtanh(f64) X_hardshrink(f32) X_hardshrink(f64) X_softshrink(f32) X_softshrink(f64)
   AD(hardtanh, 1, x < -1.0f ? -1.0f : x > 1.0f ? 1.0f : x) AD(hardshrink, 1, (x >= -0.5f && x <= 0.5f) ? 0 : x) AD(softshrink, 1, x > 0.5f ? x - 0.5f : x < -0.5f ? x + 0.5f : 0) REACHED(); }
-void h_la_slope(void){ u64 xb = in_bits(), pb = in_bits(), qb = 0; X_leaky_relu(f32) X_leaky_relu(f64) X_prelu(f32) X_prelu(f64)
-  AD(leaky_relu, 1, x >= 0 ? x : 0.01f * x) AD(prelu, 1, x >= 0 ? x : 0.25f * x) REACHED(); }
+void h_la_slope(void){ u64 xb = in_bits(), pb = in_bits(), qb = 0; X_leaky_relu(f32) X_leaky_relu(f64) X_prelu(f32) X_prelu(f64) REACHED(); }
+/* default parameters (float 0.01 / 0.25): clang folds them into (x < 0 ? c : 1) * x, so this one is only meaningful with exact arithmetic */
+void h_la_slope_def(void){ u64 xb = in_bits(), pb = 0, qb = 0; AD(leaky_relu, 1, x >= 0 ? x : 0.01f * x) AD(prelu, 1, x >= 0 ? x : 0.25f * x) REACHED(); }
 void h_la_rational(void){ u64 xb = in_bits(), pb = 0, qb = 0; X_hardswish(f32) X_hardswish(f64) X_softsign(f32) X_softsign(f64) REACHED(); }
 /* activations built on exp/log/tanh: those three are uninterpreted, the surrounding IEEE arithmetic is exact => structural check of the formula */
-#define SP(T, x, b, th) ((x) * (b) > (th) ? (x) : (T)(LOG_##T(1 + EXP_##T((x) * (b))) / (b)))
-#define X_elu(T)         A1(elu, T, 1, x > 0 ? x : p * (EXP_##T(x) - 1))
-#define X_celu(T)        A1(celu, T, 1, MAXF((T)0, x) + MINF((T)0, p * (EXP_##T(x / p) - 1)))
-#define X_selu(T)        A0(selu, T, 1, (T)1.0507009873554804934193349852946 * (MAXF(x, (T)0) + MINF((T)1.6732632423543772848170429916717 * (EXP_##T(x) - 1), (T)0)))
-#define X_sigmoid(T)     A0(sigmoid, T, 1, (T)1 / ((T)1 + EXP_##T(-x)))
-#define X_silu(T)        A0(silu, T, 1, x * ((T)1 / ((T)1 + EXP_##T(-x))))
-#define X_log_sigmoid(T) A0(log_sigmoid, T, 1, LOG_##T((T)1 / ((T)1 + EXP_##T(-x))))
+#define SP(T, x, b, th) (MUL(T, x, b) > (th) ? (x) : DIV(T, LOG_##T(ADD(T, EXP_##T(MUL(T, x, b)), 1)), b))
+#define SP1(T, x) ((x) > 20 ? (x) : LOG_##T(ADD(T, EXP_##T(x), 1)))          /* softplus with beta = 1, threshold = 20 (x*1 and y/1 folded) */
+#define SIG(T, x) DIV(T, 1, ADD(T, EXP_##T(-(x)), 1))
+#define X_elu(T)         A1(elu, T, 1, x > 0 ? x : MUL(T, p, ADD(T, EXP_##T(x), -1)))
+#define X_celu(T)        A1(celu, T, 1, ADD(T, MAXF((T)0, x), MINF((T)0, MUL(T, p, ADD(T, EXP_##T(DIV(T, x, p)), -1)))))
+#define X_selu(T)        A0(selu, T, 1, MUL(T, (T)1.0507009873554804934193349852946, ADD(T, MAXF(x, (T)0), MINF(MUL(T, (T)1.6732632423543772848170429916717, ADD(T, EXP_##T(x), -1)), (T)0))))
+#define X_sigmoid(T)     A0(sigmoid, T, 1, SIG(T, x))
+#define X_silu(T)        A0(silu, T, 1, MUL(T, x, SIG(T, x)))
+#define X_log_sigmoid(T) A0(log_sigmoid, T, 1, LOG_##T(SIG(T, x)))
 #define X_softplus(T)    A2(softplus, T, 1, SP(T, x, p, q))
-#define X_mish(T)        A0(mish, T, 1, x * TANH_##T(SP(T, x, 1.0f, 20.0f)))
-#define X_tanhshrink(T)  A0(tanhshrink, T, 1, x - TANH_##T(x))
+#define X_mish(T)        A0(mish, T, 1, MUL(T, x, TANH_##T(SP1(T, x))))
+#define X_tanhshrink(T)  A0(tanhshrink, T, 1, SUB(T, x, TANH_##T(x)))
 void h_la_exp1(void){ u64 xb = in_bits(), pb = in_bits(), qb = 0; X_elu(f32) X_elu(f64) X_celu(f32) X_celu(f64) X_selu(f32) X_selu(f64)
-  AD(elu, 1, x > 0 ? x : 1.0f * (expf(x) - 1)) AD(celu, 1, MAXF(0.0f, x) + MINF(0.0f, 1.0f * (expf(x / 1.0f) - 1))) REACHED(); }
+  AD(elu, 1, x > 0 ? x : ADD(f32, expf(x), -1)) AD(celu, 1, ADD(f32, MAXF(0.0f, x), MINF(0.0f, ADD(f32, expf(x), -1)))) REACHED(); }
 void h_la_exp2(void){ u64 xb = in_bits(), pb = 0, qb = 0; X_sigmoid(f32) X_sigmoid(f64) X_silu(f32) X_silu(f64) X_log_sigmoid(f32) X_log_sigmoid(f64) X_tanhshrink(f32) X_tanhshrink(f64) REACHED(); }
-void h_la_exp3(void){ u64 xb = in_bits(), pb = in_bits(), qb = in_bits(); X_softplus(f32) X_softplus(f64) X_mish(f32) X_mish(f64) AD(softplus, 1, SP(f32, x, 1.0f, 20.0f)) REACHED(); }
+void h_la_exp3(void){ u64 xb = in_bits(), pb = in_bits(), qb = in_bits(); X_softplus(f32) X_softplus(f64) X_mish(f32) X_mish(f64) AD(softplus, 1, SP1(f32, x)) REACHED(); }
 #endif
